@@ -1436,9 +1436,9 @@ func checkStructure(e *simcore.Env, g engine, snapDir, liveRoot string, closedBe
 			pd := filepath.Join(shardDir, name)
 			st, serr := os.Stat(pd)
 			if serr != nil || !st.IsDir() {
-				onLive := "no longer exists in the live data directory either"
+				onLive := "has no directory in the live data directory either: a memory part at the time of the request, or removed since"
 				if lst, lerr := os.Stat(filepath.Join(liveRoot, g.kind(), storage.DataDir, d, name)); lerr == nil && lst.IsDir() {
-					onLive = "exists in the live data directory"
+					onLive = "exists in the live data directory now: it was a memory part at the time of the request and has been flushed since, or it was not linked"
 				}
 				if tolerated(e, "structure", "manifest-lists-missing-part") {
 					continue
